@@ -65,7 +65,8 @@ def gen_case(rng):
                 # (bounds outside the bend range too: the samples stay inside 14 bits)
                 if big: tri += [rng.choice([rng.randint(-8192, 8191), rng.randint(-8192, 8191), 10000, -9000, 20000]), rng.choice([rng.randint(-8192, 8191), rng.randint(-8192, 8191), 12000, -10000, 30000]), rng.choice([12, 48, 96, 30])]
                 else: tri += [rng.choice([rng.randint(0, 127), rng.randint(0, 127), 140, 200, -3]), rng.choice([rng.randint(0, 127), rng.randint(0, 127), 128, 255]), rng.choice([12, 48, 96, 30])]
-            src.append(("PitchBend.onTime(%s)" if big else "p.onTime(%s)") % ",".join(map(str, tri))); sx.append("(pbontime %d (%s))" % (1 if big else 0, " ".join(map(str, tri)))); nres += 1; interp = True
+            # (every spelling of the command and of the resolution word: PitchBend / PB / p with .onTime / .T)
+            src.append((rng.choice(["PitchBend.onTime(%s)", "PitchBend.T(%s)", "PB.onTime(%s)", "PB.T(%s)"]) if big else rng.choice(["p.onTime(%s)", "p.T(%s)"])) % ",".join(map(str, tri))); sx.append("(pbontime %d (%s))" % (1 if big else 0, " ".join(map(str, tri)))); nres += 1; interp = True
         else:
             tri = []
             # (end points may lie outside 0..127: the note's velocity is the interpolated value, clamped afterwards)
